@@ -253,6 +253,27 @@ theorem blockdep_safe (a : Gen.AccRow) (prev op : BlockOp) (c : LoopCtx) (bd : N
   exact ⟨outer_le c bd hb, fun f k hfk ia oa hi ho => loop_safe c bd hb f k hfk ia oa hi ho⟩
 
 open VelaVerif.Blockdep VelaVerif.NpuOp in
+/-- `blockdep_safe` is about the model's *own* input volume, and that volume is not what the job reads: for the
+    ABS (1-row blocks) → 3×1 SAME convolution (2-row blocks) pair, `calc_blockdep` returns 2 with the real padding
+    `(top 0, right 1)`, and 1 as soon as the `right` field carries the value of `top` — the y start of forward job 1
+    is taken from `padding.right` (rows [1,3) instead of the rows [2,4) its OFM block needs), so the producer's
+    last block (row 3) is not seen.  The check reproduces the overlap on the real stream (known finding
+    `blockdep-first-job-y-uses-padding-right`). -/
+theorem blockdep_padding_right_witness :
+    calcBlockdep witAcc (some witPrev) (witOp 1) = some 2 ∧
+    calcBlockdep witAcc (some witPrev) (witOp 0) = some 1 ∧
+    (∃ c, classify witAcc (some witPrev) (witOp 1) = some (Path.loop, some c) ∧
+      c.inArea 1 = some (some ⟨⟨0, 1, 0⟩, ⟨10, 3, 16⟩⟩) ∧ c.outArea 0 = some (some ⟨⟨0, 3, 0⟩, ⟨8, 4, 16⟩⟩)) := by
+  refine ⟨by decide +kernel, by decide +kernel, ?_⟩
+  refine ⟨_, rfl, by decide +kernel, by decide +kernel⟩
+
+-- non-vacuity of `blockdep_safe`: the witness pair is on the loop path and gets a value
+open VelaVerif.Blockdep VelaVerif.NpuOp in
+example : ∃ c bd, classify witAcc (some witPrev) (witOp 1) = some (Path.loop, some c) ∧
+    calcBlockdep witAcc (some witPrev) (witOp 1) = some bd ∧ 0 < bd :=
+  ⟨_, 2, rfl, by decide +kernel, by decide⟩
+
+open VelaVerif.Blockdep VelaVerif.NpuOp in
 theorem blockdep_le_max (a : Gen.AccRow) (prev : Option BlockOp) (op : BlockOp) (bd : Nat)
     (hb : emittedBlockdep a prev op = some bd) : bd ≤ Gen.maxBlockdep := by
   simp only [emittedBlockdep, Option.map_eq_some_iff] at hb
